@@ -277,9 +277,10 @@ func c20(g *Gen) {
 								problems = append(problems, fmt.Sprintf("a predicate panics on the declaration %s.%s: %v", pk.Path, name, r))
 							}
 						}()
-						obj.IsAssignable()
-						obj.IsPrimitive()
-						obj.IsAnonymousStruct()
+						// ... and the entry of a declaration is not a type: no predicate holds of it
+						if obj.IsAssignable() || obj.IsPrimitive() || obj.IsAnonymousStruct() {
+							problems = append(problems, fmt.Sprintf("the declaration %s.%s is reported assignable=%v primitive=%v anonymous-struct=%v", pk.Path, name, obj.IsAssignable(), obj.IsPrimitive(), obj.IsAnonymousStruct()))
+						}
 						c20comparable(obj)
 					}()
 				}
